@@ -77,6 +77,9 @@ def generate(ctx):
     r = ctx.rng
     ds = common.docs(ctx, ctx.scale(700, 30000), finite=False)
     ctx.pairs = []
+    for t in (b'nul', b'[1,', b'tru e', b'@@', b'{"a"}'):
+        ctx.add('convert_to_comparable %s' % gen.hexarg(t), kind='invalid-text')    # INVALID_LEVEL branch (tie only)
+        ctx.add('convert_to_comparable@c0ffee %s' % gen.hexarg(t), kind='invalid-text')
     for a in ds:
         b = mutate(ctx, a) if r.random() < 0.8 else r.choice(ds)
         ea, eb = gen.hexarg(gen.enc(a)), gen.hexarg(gen.enc(b))
